@@ -5,6 +5,7 @@ import (
 	"go/token"
 	"go/types"
 	"os"
+	"regexp"
 	"strings"
 
 	"golang.org/x/tools/go/ssa"
@@ -142,7 +143,7 @@ func (ex *Exec) checkAsserts(fr *Frame, st *State, key string, names []string, p
 			if !ex.calleeHasFlag(key, strings.TrimPrefix(cl.Names[0], "flag:"), names) {
 				continue
 			}
-		} else if !strings.Contains(key, cl.Names[0]) {
+		} else if !strings.Contains(key, cl.Names[0]) && !strings.HasSuffix(bareKey(key), cl.Names[0]) {
 			continue
 		}
 		if env == nil {
@@ -184,9 +185,10 @@ func (ex *Exec) checkAsserts(fr *Frame, st *State, key string, names []string, p
 }
 
 // calleeHasFlag: flags written in contracts, plus the synthesized ones for /repo functions:
-//   repo-mutating      may reach a mutating backend operation and takes no ctx parameter
-//   repo-mutating-ctx  may reach a mutating backend operation and takes a ctx parameter
-//   repo-backend       may reach a backend operation and takes no ctx parameter
+//
+//	repo-mutating      may reach a mutating backend operation and takes no ctx parameter
+//	repo-mutating-ctx  may reach a mutating backend operation and takes a ctx parameter
+//	repo-backend       may reach a backend operation and takes no ctx parameter
 func (ex *Exec) calleeHasFlag(key, flag string, paramNames []string) bool {
 	if c := ex.lib.Contracts[key]; c != nil && c.Flags[flag] {
 		return true
@@ -544,7 +546,10 @@ func (ex *Exec) applyContractNamed(fr *Frame, st *State, c *Contract, names []st
 		if label == "" {
 			label = fmt.Sprint(cl.Ord)
 		}
-		ex.addObl(st, "pre", ex.oblName("pre", fmt.Sprintf("#%s@%s#%d", label, shortKey(key), ord)), g, pos, cl.Text)
+		// a precondition is an obligation of the property that owns it; the other properties rely on that check
+		if tagOwned(cl.Tags, ex.prop) {
+			ex.addObl(st, "pre", ex.oblName("pre", fmt.Sprintf("#%s@%s#%d", label, shortKey(key), ord)), g, pos, cl.Text)
+		}
 		st.Assume(g) // once checked it may be relied upon further down this path
 	}
 	old := st.Clone()
@@ -932,4 +937,14 @@ func (ex *Exec) dispatchMethod(t types.Type, method string) *ssa.Function {
 		}
 	}
 	return nil
+}
+
+var pkgQualRe = regexp.MustCompile(`[A-Za-z0-9_.\-]+(/[A-Za-z0-9_.\-]+)*\.`)
+
+// bareKey strips every package qualifier: "(*github.com/x/fs.VFS).unzip" -> "(*VFS).unzip".
+func bareKey(k string) string {
+	return pkgQualRe.ReplaceAllStringFunc(k, func(m string) string {
+		// keep the method separator: only qualifiers followed by an identifier start are dropped
+		return ""
+	})
 }
